@@ -89,6 +89,7 @@ func RunTimedWorld(r sim.Src, mons []*sim.Mon, keepLog bool, sh TimedShape) *sim
 	o := sim.TimedOpts{MaxLat: lat, ResetLag: lat * time.Duration(r.Intn("resetlag", 3)), MaxEvents: 60000}
 	maxView := -1
 	var phaseSkew map[int][4]int
+	lateTx := false
 	switch sh.Kind {
 	case "c08":
 		slowRound := r.Intn("slowround", 3) == 0
@@ -150,32 +151,32 @@ func RunTimedWorld(r sim.Src, mons []*sim.Mon, keepLog bool, sh TimedShape) *sim
 		for i := range all {
 			all[i] = i
 		}
-		t := time.Duration(0)
+		// per height one arrival class, anchored to the instant the previous proposal is actually broadcast
+		// (the run's first proposal is made at Start): none / before the minimum / during the extended
+		// wait / right after the proposal, while its round is still running
 		for h := 0; h < o.Heights+2; h++ {
-			switch r.Intn("txclass", 3) {
-			case 0: // none at this height: the block waits for the maximum
-				t += cfg.MaxTimePerBlock
-				if ratio == 0 {
-					t += tpb
-				}
-			case 1: // early
-				at := t + tpb*time.Duration(1+r.Intn("txat", 8))/10
-				o.Plan = append(o.Plan, sim.Sched{At: at, Kind: "tx", Tx: vt.Tx(1000 + h), To: all})
-				t += tpb
-			default: // during the extended wait (kept away from the 2*tpb boundary, see DESIGN)
+			it := sim.Sched{Kind: "tx", Tx: vt.Tx(1000 + h), To: all, Trig: "after-proposal", TrigCount: h + 1}
+			switch cl := r.Intn("txclass", 4); {
+			case cl == 0: // none at this height: the block waits for the maximum
+				continue
+			case cl == 1: // early
+				it.Dur = tpb * time.Duration(1+r.Intn("txat", 8)) / 10
+			case cl == 2: // during the extended wait (kept away from the 2*tpb boundary, see DESIGN)
 				if ratio <= 2 {
-					t += tpb
 					continue
 				}
 				span := cfg.MaxTimePerBlock - tpb
-				frac := time.Duration(1 + r.Intn("txat", 8))
-				at := t + tpb + span*frac/10
-				if d := at - t - 2*tpb; d > -4*o.MaxLat && d < 4*o.MaxLat {
-					at = t + 2*tpb + 5*o.MaxLat
+				it.Dur = tpb + span*time.Duration(1+r.Intn("txat", 8))/10
+				if d := it.Dur - 2*tpb; d > -4*o.MaxLat && d < 4*o.MaxLat {
+					it.Dur = 2*tpb + 5*o.MaxLat
 				}
-				o.Plan = append(o.Plan, sim.Sched{At: at, Kind: "tx", Tx: vt.Tx(1000 + h), To: all})
-				t = at
+			default: // right after the proposal (it belongs to the next block); not when that proposal itself
+				// raced the backups' first timeout
+				it.Dur = o.MaxLat * time.Duration(r.Intn("txlateat", 9)) / 2
+				it.AvoidGap, it.AvoidWin = 2*tpb, 4*o.MaxLat
+				lateTx = true
 			}
+			o.Plan = append(o.Plan, it)
 		}
 	case "c09", "c13":
 		o.Heights = 2 + r.Intn("heights", 2)
@@ -262,6 +263,9 @@ func RunTimedWorld(r sim.Src, mons []*sim.Mon, keepLog bool, sh TimedShape) *sim
 		mons = append(mons, sim.MonProgress("C13", maxView))
 	}
 	w := sim.NewWorld(cfg, r, nil, watch, mons, keepLog)
+	if lateTx {
+		w.Stat("c16_tx_during_round")
+	}
 	if phaseSkew != nil {
 		w.PhaseRank = phaseSkew
 		w.Stat("phase_skew")
